@@ -25,6 +25,7 @@ def run(prog, rep, tier):
     apply(rep, "Y1", "scanner completeness", r_lex.y1(prog), 4)
     apply(rep, "K6", "the driver does not dereference an empty argument list", r_cli.k6(prog), 1)
     apply(rep, "K3", "CLI maps every exception to exit status 2", r_cli.k3(prog), 10)
+    apply(rep, "B5", "a null error pointer is passed only to callees that cannot report an error", r_api.b5(prog), 2)
     apply(rep, "B4", "every call-graph cycle through yyparse carries a depth bound (format-string splices re-enter the parser through the scanner)", r_api.b4(prog), 1)
     import r_pure
     q = r_pure.q1(prog)
